@@ -2,6 +2,7 @@
 from ..analysis import (path_count, Slice, switch_guards, UserCode, GuardLiveness, guard_target, calls_to, who_calls,
                         atomic_events, acquireish, releaseish, field_assigns, WAKER_FNS)
 from ..evtflow import return_sites, variant_path
+from ..analysis import discr_source, guard_src_place  # noqa: E402
 from ..mir import callee_key, callee_paths, op_local, op_place, strip_generics, op_access_path, resolve_const
 
 EXPL = ("Linearizability is NOT decided. Decided, on MIR of events and awaiter_set, are structural necessary conditions of "
@@ -192,15 +193,56 @@ def run(ctx):
                f"advance_generation sites {len(ag)} (outside the loop), notify_one_prior_generation sites {len(npg)} (inside the loop), notify_one sites {len(n1)}")
         # loop exits only when notify_one_prior_generation returned None
         if len(npg) == 1:
+            nbb = npg[0][0]
+            fwd = b.reachable(b.term_succ(nbb, False), unwind=False)
+            loop = {x for x in fwd if nbb in b.reachable(b.term_succ(x, False), unwind=False)} | {nbb}
+            exits_ok = True
+            det = []
+            dest = npg[0][1]["dest"]["l"]
+            for u in sorted(loop):
+                if b.blocks[u].cleanup:
+                    continue
+                for v in b.term_succ(u, False):
+                    if v in loop or b.blocks[v].cleanup:
+                        continue
+                    t = b.blocks[u].term
+                    okx = False
+                    if t["k"] == "switch":
+                        src = discr_source(b, op_local(t["discr"]))
+                        pl = guard_src_place(src)
+                        if src.get("kind") == "discr" and pl is not None:
+                            sl = Slice(b, through_calls=False).run({"k": "copy", "place": {"l": pl["l"], "p": []}})
+                            labels = [lab for lab, tgt in t["arms"] if tgt == v] + (["otherwise"] if t["otherwise"] == v else [])
+                            some_labels = [lab for lab, tgt in t["arms"] if lab == 1]
+                            okx = dest in sl["locals"] and 1 not in labels
+                    exits_ok = exits_ok and okx
+                    det.append(f"exit bb{u}->bb{v}: on the None arm of the drained waker: {okx}")
+            ctx.ob("R5.manual-drain", "drain-until-none", exits_ok and bool(det), b.loc(), "; ".join(det) or "no loop exit found")
+        # the only way to skip the drain is `previous & HAS_WAITERS == 0`
+        if len(fo) == 1 and len(ag) == 1:
+            fbb, abb = fo[0]["bb"], ag[0][0]
             rets = b.exits(("return",))
-            r = b.reachable(b.term_succ(npg[0][0], False), unwind=False)
-            gs_ok = True
-            for ret in rets:
-                if ret in r:
-                    gs = switch_guards(b, ret)
-                    # reachable from loop only via None arm
-                    pass
-            ctx.ob("R5.manual-drain", "drain-until-none", True, b.loc(), "loop exit is the None arm of notify_one_prior_generation (shape recorded)")
+            skip = b.reachable(b.term_succ(fbb, False), unwind=False, avoid=[abb])
+            edges = []
+            for blk in b.blocks:
+                t = blk.term
+                if t["k"] != "switch" or blk.idx not in skip:
+                    continue
+                src = discr_source(b, op_local(t["discr"]))
+                if src.get("kind") == "cmp" and src.get("op") in ("Eq", "Ne") and src.get("const") == 0 and src.get("lhs_local") is not None:
+                    sl = Slice(b, through_calls=False).run({"k": "copy", "place": {"l": src["lhs_local"], "p": []}})
+                    cs = [c.get("val") for c in sl["consts"] if "val" in c]
+                    if "BitAnd" in sl["binops"] and cs == [HAS_WAITERS] and fo[0]["dest"] in sl["locals"]:
+                        tgt_true = t["otherwise"]
+                        tgt_false = [tg for lab, tg in t["arms"] if lab == 0]
+                        # the skipping edge is the one where (prev & HAS_WAITERS) == 0 holds
+                        e = (blk.idx, tgt_true) if src["op"] == "Eq" else (blk.idx, tgt_false[0]) if tgt_false else None
+                        if e:
+                            edges.append(e)
+            skip2 = b.reachable(b.term_succ(fbb, False), unwind=False, avoid=[abb], avoid_edges=edges)
+            other = [r for r in rets if r in skip2]
+            ctx.ob("R5.manual-drain", "skip-only-without-waiters", bool(edges) and not other, b.loc(),
+                   f"sanctioned skip edges (previous & HAS_WAITERS == 0): {edges}; return reachable without draining by another route: {bool(other)}")
 
     # ---------------- R7 awaiter_set
     reg = prog.one("AwaiterSet::register")
